@@ -72,7 +72,8 @@ def binds(fn, kind=None, declname=None, exact=True, note=""):
     contract(f"{Z}{fn}@guard", props=["C05", "C02"], types={"expr": ZX, "children_results": "Any"},
              arg_order=["expr", "children_results"], returns="Opt[Any]",
              fragment=dict(rule="guard_prefix"), ensures=ens,
-             path_hints={"calls": GUARD_CALLS}, crosscheck=False, native=f"guard:isla.z3_helpers:evaluate_z3_{fn}",
+             path_hints={"calls": GUARD_CALLS, "abstract_answers": True}, crosscheck=False,
+             native=f"guard:isla.z3_helpers:evaluate_z3_{fn}",
              note=note)
 
 
